@@ -447,6 +447,19 @@ def deep_cases():
             for goal in ([C(0), C(A), V("Y")], [V("v1"), C(A), C(L)], [C(0), C(A), C(L)], [C(0), C(A), C(min(L, 10))],
                          [C(1), C(A), V("v0")]):
                 cases.append({"kind": "bc", "dict": dic, "facts": facts, "rules": rules, "goal": goal})
+    # a long detour explored before a shortcut to the same sub-goal (a memo of failed sub-goals must not forget that the
+    # failure at the end of the detour was caused by the depth bound): n0 -long-> ... -long-> nL, short(n0, nL), edge(nL, T)
+    for L in (8, 9, 10, 11):
+        dic = ["n%d" % i for i in range(L + 1)] + ["T", "long", "short", "edge", "reach"]
+        T, LG, SH, ED, RE = L + 1, L + 2, L + 3, L + 4, L + 5
+        X, Y, Z = V("X"), V("Y"), V("Z")
+        r_long = {"prem": [[X, C(LG), Y], [Y, C(RE), Z]], "concl": [[X, C(RE), Z]], "filt": []}
+        r_short = {"prem": [[X, C(SH), Y], [Y, C(RE), Z]], "concl": [[X, C(RE), Z]], "filt": []}
+        r_edge = {"prem": [[X, C(ED), Y]], "concl": [[X, C(RE), Y]], "filt": []}
+        facts = [[i, LG, i + 1] for i in range(L)] + [[0, SH, L], [L, ED, T]]
+        for rules in ([r_long, r_short, r_edge], [r_edge, r_long, r_short], [r_short, r_long, r_edge]):
+            for goal in ([C(0), C(RE), C(T)], [C(0), C(RE), V("where")], [V("v0"), C(RE), C(T)]):
+                cases.append({"kind": "bc", "dict": dic, "facts": facts, "rules": rules, "goal": goal})
     return cases
 
 
